@@ -796,7 +796,11 @@ def part_files(chk, runner):
         # --check-linearization accepts the file without warning
         c_rc, c_so, c_se = r1
         if c_rc != 0 or b"no linearization errors" not in c_so or b"WARNING" in c_se:
-            if not (inp["kind"] == "corpus" and rc == 3 and c_rc == 3 and b"linearization" not in c_se.lower()):
+            # a damaged corpus input (write exit 3) may leave streams that cannot be decoded (e.g. a broken encryption dictionary: the hint
+            # stream is then unreadable for qpdf); what is not tolerated is a complaint about the linearization data or the file structure
+            tolerated = (inp["kind"] == "corpus" and rc == 3 and c_rc == 3 and
+                         not re.search(rb"mismatch|not linearized|file is damaged|xref|compressed|hint table", c_se + c_so))
+            if not tolerated:
                 chk.violation(dict(case, kind="property-fails-on-implementation", part="check-linearization", why="qpdf --check-linearization does not accept the file silently",
                                    check_exit=c_rc, stdout=c_so.decode("latin-1")[-300:], stderr=c_se.decode("latin-1")[-400:]),
                               signature=("lin:encrypt-trailer-string-damaged" if cfg[0] != "none" and not xref_stream and trailer_has_direct_string(data) and rep["errors"] and rep["errors"][0][0] == 1
